@@ -73,6 +73,8 @@ pub const STATEMENTS: &[&str] = &[
     "exec 3>f3; exec 4>f3; echo aaaa >&3; echo b >&4; exec 3>&- 4>&-", "exec 3>>f0; : > f0; echo x >&3; exec 3>&-",
     "exec 4<f0; (read a <&4; echo \"$a\"); read b <&4; echo \"$b\"; exec 4<&-", "exec 3<>f0; read a <&3; echo XY >&3; exec 3>&-; cat f0",
     "echo abcdef > f1; exec 3<f1; : > f1; cat <&3; echo $?; exec 3<&-",
+    "exec 3>>f3; echo one >&3; : > f3; echo two >&3; exec 3>&-; cat f3", "exec 3>>f3; echo one >&3; (: > f3; echo sub >&3); echo two >&3; exec 3>&-",
+    "exec 3<>f0; echo XY >&3; read a <&3; echo \"$a\"; exec 3>&-", "echo 0123456789 > f1; exec 3<f1 4<f1; read a <&3; exec 5<&3; read b <&4; read c <&5; echo \"$a|$b|$c\"; exec 3<&- 4<&- 5<&-",
     // exit statuses beyond 8 bits are truncated by the kernel
     "(exit 300); echo $?", "(exit 256); echo $?", "{ exit 300; } & wait $!; echo $?", "st 0 | (exit 511); echo $?", "x=$(exit 257); echo $?",
     // a child that has been waited for no longer exists
